@@ -264,6 +264,26 @@ func (d *c14Drv) opWrite(p []byte) {
 	d.t.Emit(e)
 }
 
+func (d *c14Drv) opWriteString(p []byte) {
+	if d.o == nil {
+		return
+	}
+	e := d.ev("WriteString")
+	e["p"] = bytesToInts(p)
+	arg := c14clone(p)
+	var err error
+	msg, pk := c14try(func() { err = d.o.(interface{ WriteString([]byte) error }).WriteString(arg) })
+	if pk {
+		e["panic"] = msg
+	} else {
+		e["pafter"] = bytesToInts(arg)
+		if err != nil {
+			e["err"] = err.Error()
+		}
+	}
+	d.t.Emit(e)
+}
+
 func (d *c14Drv) opSum(b []byte) {
 	if d.o == nil {
 		return
@@ -458,13 +478,19 @@ func (d *c14Drv) withCap(p []byte, capacity int) []byte {
 	return buf
 }
 
-var c14Alphabet = []string{"w0", "ws", "w1", "w2", "w3", "wb", "wvb", "wr", "wrx", "s", "sb", "sbs", "sbx", "r", "st", "ss", "ssb", "sz", "scr"}
+var c14Alphabet = []string{"w0", "ws", "w1", "w2", "w3", "wb", "wvb", "wr", "wrx", "s", "sb", "sbs", "sbx", "r", "st", "ss", "ssb", "sz", "scr", "wstr"}
 var c14Reduced = []string{"w1", "wvb", "wr", "s", "sb", "st", "ss", "r"}
 
 func (d *c14Drv) sym(s string) {
 	bs := d.in.bs
 	r := d.rng
 	switch s {
+	case "wstr": // MiMC: WriteString (a string that is not a list of field elements); elsewhere one valid block
+		if _, ok := d.o.(interface{ WriteString([]byte) error }); ok {
+			d.opWriteString(r.Bytes([]int{0, 1, 5, bs - 1, bs, bs + 1, 3 * bs}[r.Intn(7)]))
+		} else {
+			d.opWrite(d.block(true))
+		}
 	case "w0":
 		if r.Intn(2) == 0 {
 			d.opWrite(nil)
